@@ -4,7 +4,7 @@
     [run_case] compares model and implementation; [prop_case] evaluates the property (Spec.v) on
     the implementation's outcome alone. *)
 From V.Lib Require Import Base.
-From V.C18 Require Import Model Spec.
+From V.C18 Require Import Model Spec Store.
 Local Open Scope Z_scope.
 
 Inductive event :=
@@ -18,10 +18,18 @@ Inductive event :=
 | ERollback (h : Z)
 | EReportFailure (id tip : Z)
 | ERecordSat (scanned est : Z) (dets : list (Z * answer))
+| ERebuild (id tip : Z) (grid_ok crypto_ok external : bool) (sched anchor txid : Z)
 | ECancel | ESupersede | ERecompute.
 
-Inductive output := OUnit | OBool (b : bool) | OStep (st : step) (persisted : bool) | OPanic.
-Inductive pers := PNone | PRt (latest_ok get_ok one_live_ok : bool).
+Inductive output := OUnit | OBool (b : bool) | OStep (st : step) (persisted : bool) | ORebuild (r : rebuild_res) | OPanic.
+(** persistence stream: the verdicts of the load-back ([latest_migration] / [get_migration] equal
+    to what was written, at most one live migration), and a plain [SELECT] dump of what
+    [replace_migration] wrote: the parent row's status / threshold / interval columns and the rows
+    of the transactions and dependency tables, in insertion order *)
+Inductive pers :=
+| PNone
+| PRows (latest_ok get_ok one_live_ok : bool) (st : status) (thr ivl : Z)
+        (rows : list txrow) (deps : list deprow).
 
 Inductive case := Case (pre : mstate) (ev : event) (post : mstate) (out : output) (p : pers).
 
@@ -59,7 +67,39 @@ Definition output_eqb (a b : output) : bool :=
   | OUnit, OUnit | OPanic, OPanic => true
   | OBool x, OBool y => Bool.eqb x y
   | OStep s p, OStep s' p' => step_eqb s s' && Bool.eqb p p'
+  | ORebuild RbOk, ORebuild RbOk | ORebuild RbLate, ORebuild RbLate => true
+  | ORebuild (RbErr e), ORebuild (RbErr e') =>
+    match e, e' with
+    | RMismatch, RMismatch | RUnknown, RUnknown | RNotTransfer, RNotTransfer
+    | RUnsatisfiable, RUnsatisfiable | RNotExpired, RNotExpired => true
+    | _, _ => false
+    end
   | _, _ => false
+  end.
+
+Definition kname_eqb (a b : kname) : bool := match a, b with NPrep, NPrep | NTransfer, NTransfer => true | _, _ => false end.
+Definition sname_eqb (a b : sname) : bool :=
+  match a, b with
+  | NAwaiting, NAwaiting | NSigned, NSigned | NProved, NProved | NBroadcast, NBroadcast | NMined, NMined => true
+  | _, _ => false
+  end.
+Definition txrow_eqb (a b : txrow) : bool :=
+  (c_id a =? c_id b) && kname_eqb (c_kind a) (c_kind b) && oz_eqb (c_layer a) (c_layer b)
+  && oz_eqb (c_index a) (c_index b) && oz_eqb (c_crossing a) (c_crossing b) && (c_sched a =? c_sched b)
+  && (c_expiry a =? c_expiry b) && oz_eqb (c_anchor a) (c_anchor b) && sname_eqb (c_state a) (c_state b)
+  && oz_eqb (c_txid a) (c_txid b) && oz_eqb (c_mined a) (c_mined b) && oz_eqb (c_unsat_at a) (c_unsat_at b)
+  && option_eqb ukind_eqb (c_unsat_kind a) (c_unsat_kind b) && oz_eqb (c_fail a) (c_fail b).
+Definition deprow_eqb (a b : deprow) : bool :=
+  (d_tx a =? d_tx b) && Nat.eqb (d_ord a) (d_ord b) && (d_on a =? d_on b).
+
+(** the row model's prediction of what the store holds after [replace_migration post] *)
+Definition rows_match (post : mstate) (p : pers) : bool :=
+  match p with
+  | PNone => true
+  | PRows _ _ _ st thr ivl rows deps =>
+    status_eqb st (m_status post) && (thr =? m_thr post) && (ivl =? m_ivl post)
+    && list_eqb txrow_eqb rows (fst (save_txs (m_txs post)))
+    && list_eqb deprow_eqb deps (snd (save_txs (m_txs post)))
   end.
 
 (* ------------------------------------------------------------------------------------------ *)
@@ -89,15 +129,21 @@ Definition model_event (s : mstate) (ev : event) : option (mstate * output) :=
   | ERollback h => Some (truncate_to_height s h, OUnit)
   | EReportFailure id tip => Some (report_broadcast_failure s id tip, OUnit)
   | ERecordSat sc est dets => Some (record_satisfiability s (mk_targets sc est) dets, OUnit)
+  | ERebuild id tip grid_ok crypto_ok external sched anchor txid =>
+    (* the observed new schedule determines the drawn delay, which must not be negative *)
+    let target := sat_add tip 1 in
+    let delay := sched - chain_base s target in
+    if crypto_ok && ((delay <? 0) || (U32MAX <? sched)) then None
+    else let '(s', r) := rebuild s id target grid_ok crypto_ok external delay anchor txid in Some (s', ORebuild r)
   | ECancel => Some (mark_cancelled s, OUnit)
   | ESupersede => Some (mark_superseded s, OUnit)
   | ERecompute => Some (recompute_status s, OUnit)
   end.
 
 Definition run_case (c : case) : bool :=
-  let '(Case pre ev post out _) := c in
+  let '(Case pre ev post out p) := c in
   match model_event pre ev with
-  | Some (s', o) => mstate_eqb s' post && output_eqb o out
+  | Some (s', o) => mstate_eqb s' post && output_eqb o out && rows_match post p
   | None => false
   end.
 
@@ -105,10 +151,23 @@ Definition run_case (c : case) : bool :=
 (** the property on the implementation's outcome *)
 Definition is_notyet (a : answer) : bool := match a with NotYet _ => true | _ => false end.
 
+(** a rebuild replaces at most the row with the given id, and only an unmined, unmarked transfer
+    that is expired at the target; the replacement is a NEW transaction under the same id (same
+    kind and dependencies): pre-signed or awaiting its signature, scheduled at or after the
+    target and not expired there; every other row is untouched *)
+Definition rebuild_exact_b (id target : Z) (pre post : list mtx) : bool :=
+  forall2b (fun a b =>
+    mtx_eqb a b
+    || ((t_id a =? id) && (t_id b =? id) && sp_unmined a && sp_expired a target && is_transfer a
+        && negb (is_some (t_unsat a)) && kind_eqb (t_kind a) (t_kind b) && list_eqb Z.eqb (t_deps a) (t_deps b)
+        && (match t_state b with Signed | AwaitingSig => true | _ => false end)
+        && (target <=? t_sched b) && negb (sp_expired b target))) pre post.
+
 Definition prop_event (pre : mstate) (ev : event) (post : mstate) (out : output) : bool :=
   (* lifecycle: forward only, a rollback un-mines exactly the rows mined above its height *)
   (match ev with
    | ERollback h => rollback_exact_b h (m_txs pre) (m_txs post)
+   | ERebuild id tip _ _ _ _ _ _ => rebuild_exact_b id (sat_add tip 1) (m_txs pre) (m_txs post)
    | _ => monotone_b (m_txs pre) (m_txs post)
    end)
   (* terminal statuses are never left *)
@@ -126,7 +185,7 @@ Definition prop_event (pre : mstate) (ev : event) (post : mstate) (out : output)
 Definition prop_case (c : case) : bool :=
   let '(Case pre ev post out p) := c in
   prop_event pre ev post out
-  && match p with PNone => true | PRt a b c => a && b && c end.
+  && match p with PNone => true | PRows a b c _ _ _ _ _ => a && b && c end.
 
 (** Classes of the two recordings that used to demote a row (1: a broadcast recorded on a row
     that is already mined; 2: a proof stored on a row that is already in flight or mined). Both
@@ -144,7 +203,7 @@ Definition known_class (c : case) : N :=
 (** path tags: event kind, and for Advance the step kind / whether anything was persisted *)
 Definition tag_case (c : case) : N :=
   let '(Case pre ev post out p) := c in
-  (match p with PNone => 0 | PRt _ _ _ => 100 end +
+  (match p with PNone => 0 | PRows _ _ _ _ _ _ _ _ => 100 end +
   match ev, out with
   | ENoop, _ => 1
   | EStoreProof id, _ => match state_of pre id with Some Signed => 2 | None => 3 | _ => 4 end
@@ -162,6 +221,11 @@ Definition tag_case (c : case) : N :=
                       else match m_status pre, m_status post with Complete, InProgress => 57 | _, _ => 56 end
   | EReportFailure id _, _ => match state_of pre id with Some Proved => 58 | _ => 59 end
   | ERecordSat _ _ _, _ => if mstate_eqb pre post then 60 else 61
+  | ERebuild _ _ _ _ _ _ _ _, ORebuild RbOk => 65
+  | ERebuild _ _ _ _ _ _ _ _, ORebuild RbLate => 66
+  | ERebuild _ _ _ _ _ _ _ _, ORebuild (RbErr e) =>
+    match e with RMismatch => 67 | RUnknown => 68 | RNotTransfer => 69 | RUnsatisfiable => 70 | RNotExpired => 71 end
+  | ERebuild _ _ _ _ _ _ _ _, _ => 72
   | ECancel, _ => 62
   | ESupersede, _ => 63
   | ERecompute, _ => 64
